@@ -1129,7 +1129,7 @@ def compensated_horner(ctx, x, coeffs, reverse=True):
     N = len(coeffs) - 1
     if reverse:
         s = ctx.constant(coeffs[0], x)
-        indices = range(N)
+        indices = range(1, N + 1)
     else:
         s = ctx.constant(coeffs[N], x)
         indices = reversed(range(N))
